@@ -1,5 +1,6 @@
 import XmppModel.Prelude.Hex
 import XmppModel.Model.Jid
+import XmppModel.Model.JidXml
 /-! Driver for C11 (line protocol: see harness/c11/c11.go).  Byte strings are hex (`-`
 empty); the results of the external normalisers on the inputs of the line are passed by the
 harness as oracle fields (`!` = the library returned an error). -/
@@ -28,6 +29,69 @@ def showRes : Except Err Jid → String
 def pJid (data ll dl : String) : Option Jid := do
   let d ← hexDecode data; let a ← ll.toNat?; let b ← dl.toNat?
   if a + b ≤ d.length then pure ⟨d, a, b⟩ else none
+
+/-! ### operation sequences (`seq`): the pure functions applied in order; a report per slot -/
+
+def pOrc6 (f : List String) : Option (Option Bytes × Option Bytes × Bool × Bool × Option Bytes × Option Bytes) :=
+  match f with
+  | [nl, nr, i6, i4, idna, idna2] => do
+    pure (← pOracle nl, ← pOracle nr, ← parseBool i6, ← parseBool i4, ← pOracle idna, ← pOracle idna2)
+  | _ => none
+
+def slot (vals : List (Option Jid)) (i : String) : Option Jid := do
+  let n ← i.toNat?
+  match vals[n]? with
+  | some (some j) => some j
+  | _ => none
+
+def toSlot : Except Err Jid → Option Jid
+  | .ok j => some j
+  | .error _ => none
+
+/-- one operation: the new slot (`none` = the operation failed), or `none` for a malformed /
+dangling operation -/
+def seqOp (vals : List (Option Jid)) (op : String) : Option (Option Jid) :=
+  match splitList op ':' with
+  | "P" :: s :: orc => do
+    let s ← hexDecode s
+    let (nl, nr, i6, i4, idna, idna2) ← pOrc6 orc
+    match split true s with
+    | .ok (l, d, r) => pure (toSlot (parse (mkNorm l nl r nr d i6 i4 idna idna2) s))
+    | .error _ => pure none
+  | "N" :: l :: d :: r :: orc => do
+    let l ← hexDecode l; let d ← hexDecode d; let r ← hexDecode r
+    let (nl, nr, i6, i4, idna, idna2) ← pOrc6 orc
+    pure (toSlot (new (mkNorm l nl r nr d i6 i4 idna idna2) l d r))
+  | ["B", i] => do let j ← slot vals i; pure (some j.bare)
+  | ["D", i] => do let j ← slot vals i; pure (some j.domain)
+  | ["C", i] => do let j ← slot vals i; pure (some j)
+  | ["L", i, l, nl] => do
+    let j ← slot vals i; let l ← hexDecode l
+    pure (toSlot (withLocal (mkNorm l (← pOracle nl) [] none [] false false none none) j l))
+  | ["M", i, d, i6, i4, idna, idna2] => do
+    let j ← slot vals i; let d ← hexDecode d
+    pure (toSlot (withDomain (mkNorm [] none [] none d (← parseBool i6) (← parseBool i4) (← pOracle idna) (← pOracle idna2)) j d))
+  | ["R", i, r, nr] => do
+    let j ← slot vals i; let r ← hexDecode r
+    pure (toSlot (withResource (mkNorm [] none r (← pOracle nr) [] false false none none) j r))
+  | "A" :: i :: v :: orc => do
+    let j ← slot vals i; let v ← hexDecode v
+    let (nl, nr, i6, i4, idna, idna2) ← pOrc6 orc
+    let N := match split true v with
+      | .ok (l, d, r) => mkNorm l nl r nr d i6 i4 idna idna2
+      | .error _ => mkNorm [] none [] none [] false false none none
+    pure (some (unmarshalAttr N j v).1)
+  | _ => none
+
+def runSeq : List (Option Jid) → List String → Option (List (Option Jid))
+  | vals, [] => some vals
+  | vals, op :: rest => do
+    let v ← seqOp vals op
+    runSeq (vals ++ [v]) rest
+
+def showSlot : Option Jid → String
+  | some j => s!"{hexEncode j.data}/{j.ll}/{j.dl}"
+  | none => "err"
 
 def handle (args : List String) : Option String :=
   match args with
@@ -69,6 +133,29 @@ def handle (args : List String) : Option String :=
   | ["withr", data, ll, dl, r, nr] => do
     let j ← pJid data ll dl; let r ← hexDecode r
     pure (showRes (withResource (mkNorm [] none r (← pOracle nr) [] false false none none) j r))
+  | ["seq", ops] => do
+    let vals ← runSeq [] (splitList ops ';')
+    pure (joinList (vals.map showSlot))
+  | ["melem", data, ll, dl] => do
+    let j ← pJid data ll dl
+    match marshalElemToks ⟨"", "j"⟩ [] j with
+    | some ts => pure (Xml.encToks ts)
+    | none => pure "none"
+  | ["mattr", data, ll, dl] => do
+    let j ← pJid data ll dl
+    match marshalAttrTok ⟨"", "j"⟩ j with
+    | some a => pure (hexEncode (strBytes a.value))
+    | none => pure "none"
+  | ["unelemtoks", toks, nl, nr, ip6, ip4, idna, idna2] => do
+    let inner ← Xml.decToks toks
+    let v := charDataOf 0 inner
+    let nl ← pOracle nl; let nr ← pOracle nr; let i6 ← parseBool ip6; let i4 ← parseBool ip4
+    let idna ← pOracle idna; let idna2 ← pOracle idna2
+    let N := match split true v with
+      | .ok (l, d, r) => mkNorm l nl r nr d i6 i4 idna idna2
+      | .error _ => mkNorm [] none [] none [] false false none none
+    let (j, ok) := unmarshalElemToks N ⟨[0x7a], 0, 1⟩ inner
+    pure s!"{showJid j} {showBool ok}"
   | ["utf8", s] => do
     let s ← hexDecode s
     pure (showBool (validUtf8 s))
